@@ -1,5 +1,5 @@
 """C09 — heap component; see harness/heap.py"""
-from .. import heap, common
+from .. import heap, refgraph, common
 
 PROP = "C09"
 PREFIX = ('C09:',)
@@ -16,25 +16,34 @@ def _run(tier, seed):
     return _cache[(tier, seed)]
 
 
+def _rg(tier, seed):
+    if ("rg", tier, seed) not in _cache:
+        _cache[("rg", tier, seed)] = refgraph.run_all(tier, seed)
+    return _cache[("rg", tier, seed)]
+
+
 def run(tier, seed):
     r = _run(tier, seed)
+    g = _rg(tier, seed)
     return {
-        "failures": _mine(r["failures"]),
-        "mismatches": r["mismatches"],
-        "evaluations": r["lines"],
-        "distinct_nontrivial": r["distinct"],
-        "traces": r["lines"],
+        "failures": _mine(r["failures"]) + _mine(g["failures"]),
+        "mismatches": r["mismatches"] + g["mismatches"],
+        "evaluations": r["lines"] + g["lines"],
+        "distinct_nontrivial": r["distinct"] + g["distinct"],
+        "traces": r["lines"] + g["lines"],
         "rule": "random types biased to hold Ref / UnionRef slots (in structs and as array items), three poison-filled buffers in two "
                 "contexts with traced allocate(): construction; copy-construction from the object or from an earlier copy into the same "
                 "buffer / another buffer of the context / another context; a scalar write to source or copy; binding of a reference "
                 "slot to an object of the same buffer, an object of another buffer or context, plain data, None; writes through the "
                 "reference and through the original; growth of the holder's buffer - after every step the bytes of ALL buffers and the "
                 "deep values are compared with the executable Lean heap model. " + "Oracle C09: the copy reads as the source's value; its extent is disjoint from the source's and lies in the requested buffer; a scalar write to either is not seen through the other; referents are the same objects when source and copy share a buffer and duplicates inside the copy's buffer otherwise.",
-        "samples": r["samples"],
+        "samples": r["samples"] + g["samples"],
         "tags": r["tags"],
-        "correspondence": {"heap": {"lines": r["lines"], "mismatches": len(r["mismatches"]), "type_histogram": r["hist"]}},
+        "correspondence": {"heap": {"lines": r["lines"], "mismatches": len(r["mismatches"]), "type_histogram": r["hist"]},
+                           "rg": {"cases": g["cases"], "lines": g["lines"], "mismatches": len(g["mismatches"]),
+                                  "copies": g["tags"].get("copy", 0)}},
         "assumptions": ['offsets below 2^62'],
-        "partial": ['types that hold references are rebuilt field-/item-wise: executable model + oracle only (C09_equal_partial is for the byte copy of reference-free types); HybridClass.copy() is covered under C18'],
+        "partial": ['types that hold references are rebuilt field-/item-wise: a theorem (C09_copy_shares_referents) for node classes (static structs of scalars, Ref and UnionRef fields) copied inside one buffer; copies into another buffer (duplicated referents) and references held in arrays / dynamic structs: executable heap model + oracle only; HybridClass.copy() is covered under C18'],
     }
 
 
@@ -42,12 +51,25 @@ def search(mismatches, seed):
     out = []
     for s in range(2):
         out.extend(_mine(heap.run_all("quick", seed + 8000 + s, n=500)["failures"]))
+        out.extend(_mine(refgraph.run_all("quick", seed + 8000 + s, n=600)["failures"]))
         if out:
             break
     return out
 
 
 def replay(rep):
+    f = rep.get("failure") or (rep.get("mismatches") or [{}])[0]
+    if (f.get("replay") or {}).get("component") == "rg":
+        fails, mism = refgraph.replay(f["replay"])
+        for x in fails[:5]:
+            print("oracle:", x.key, x.what[:300])
+        for l, e, g in mism[:3]:
+            print(f"tie: `{l}` impl `{e[:160]}` model `{g[:160]}`")
+        if _mine(fails):
+            print(f"VIOLATION property={PROP} replay=(replayed)")
+            return 1
+        print("replay: property holds on this input" + (" (model and code still differ)" if mism else ""))
+        return 0
     out = _mine(heap.run_all(rep.get("tier", "quick"), rep.get("seed", 0))["failures"])
     for x in out[:5]:
         print("oracle:", x.key, x.what[:300])
